@@ -45,7 +45,7 @@ func (Prop) Rule() string {
 	return "Completeness (E2): 12 keys {1,2,n-2,2^255,8 hash-chain} x UID length {0(default),1,16,55,56,63,64,65,8191; 8192 must error} x message length {0,1,31,32,33,64,1000} x 16 scripted nonce blocks " +
 		"{0,1,n-2,n-1,n,n+1,2^256-1,mid and their byte[1]^0x42 images} x 7-8 signing entry points; every signature must equal the reference signature for the scripted k (GB/T 32918.2 with ecref), satisfy the reference verification equation and be accepted by 6 verification entry points. " +
 		"Soundness (E3): per (key,msg,UID,signature) triple (signature made by the reference) all 255 substitutions at every byte, all truncations/extensions, DER-aware edits of every TLV, structured r/s replacements and non-DER re-encodings, small (r,s) pairs, other key/message/UID; thorough adds all 2-deviation small-set mutants of two triples. " +
-		"Chosen-digest candidates on each degenerate branch of the verification procedure (t = r+s = 0 mod n for 9 values of s x 3 digests incl. the one that makes R = r for the collapsed point; [s]G+[t]P = infinity via s = -t*d) for every key. Three additional triples with chosen small (r,s) on a crafted digest (k = s(1+d)+rd, e = r-x([k]G)) so that r+n and s+n fit in 32 bytes. Oracle in both directions for every candidate and entry point: library accepts <=> strict DER parse succeeds AND reference equation holds with r,s in [1,n-1]. " +
+		"Retry paths of signing (first scripted nonce made to hit s = 0, r = 0 or r+k = n through a chosen digest; the signature must be the reference one for the second nonce) for every key; valid signatures constructed so that x([s]G+[t]P) lies in [n,p) must be accepted by every entry point. Chosen-digest candidates on each degenerate branch of the verification procedure (t = r+s = 0 mod n for 9 values of s x 3 digests incl. the one that makes R = r for the collapsed point; [s]G+[t]P = infinity via s = -t*d) for every key. Three additional triples with chosen small (r,s) on a crafted digest (k = s(1+d)+rd, e = r-x([k]G)) so that r+n and s+n fit in 32 bytes. Oracle in both directions for every candidate and entry point: library accepts <=> strict DER parse succeeds AND reference equation holds with r,s in [1,n-1]. " +
 		"Histories (E1): key objects with d in {valid, n-2, n-1, n, n+1, 2^256-1} built by 9 routes x BFS over all sequences of length <= 3 of {Sign(m1), Sign(digest), SignWithSM2, Decrypt, ECDH(), sm2.Sign func}, states merged on the full private state dump of the key object; d >= n-1: every Sign returns an error, nothing panics; valid d: signatures equal the reference. " +
 		"Legacy (non-SM2 curve, NIST P-256 through sm2_legacy.go): reduced completeness, one soundness triple, and invalid-scalar signing with a bounded reader. " +
 		"distinct_nontrivial counts (key,UID,msg,nonce) combinations, (triple, mutation class, parse/range class) classes and reached key-object states."
@@ -940,6 +940,11 @@ func (Prop) Run(c *engine.Ctx) {
 		ki := ki
 		c.Case(fmt.Sprintf("sound/degenerate-branches/key#%d", ki), func(t *engine.T) { soundDegenerateCase(t, ki) })
 	}
+	for ki := range Keys() {
+		ki := ki
+		c.Case(fmt.Sprintf("sign/retry-paths/key#%d", ki), func(t *engine.T) { soundRetryCase(t, ki) })
+	}
+	c.Case("sound/x-coordinate-in-[n,p)", func(t *engine.T) { soundLargeXCase(t) })
 	if !c.Quick() {
 		for _, i := range []int{5, 11} {
 			i := i
